@@ -303,7 +303,7 @@ def effect_stage(res):
             if bad < 6:
                 bad += paths_in_effect(res, t, j["datas"][k], j, "after update step %d" % k, counter)
                 bad += script_paths(res, t, j, "after update step %d" % k, counter)
-        if "matrix-attrs-only" not in j.get("features", []):
+        if "matrix-attrs-only" not in j.get("features", []) and not any(str(f).startswith("matrix-loop-template") for f in j.get("features", [])):
             continue
         d0 = j["datas"][0]
         for f in sorted(run0.get("B") or {}):
@@ -321,6 +321,7 @@ def effect_stage(res):
             continue
         if bad < 6:
             bad += paths_in_effect(res, o["trees"][1], d1, j, "after the binding-map update of field %r" % f, counter)
+            bad += script_paths(res, o["trees"][1], j, "after the binding-map update of field %r" % f, counter)
     return counter[0], bad
 
 
